@@ -48,7 +48,16 @@ int KillMemoryGrowth<Base>::init(
       });
 
   this->argParser_.addArgumentCustom(
-      "min_growth_ratio", min_growth_ratio_, PluginArgParser::parseUnsignedInt);
+      "min_growth_ratio", min_growth_ratio_, [](const std::string& s) {
+        // a ratio such as the documented default 1.25, not an integer
+        size_t end = 0;
+        float v = std::stof(s, &end);
+        if (end != s.size() || !(v >= 0)) {
+          throw std::invalid_argument(
+              "min_growth_ratio must be a non-negative number");
+        }
+        return v;
+      });
 
   return Base::init(args, context);
 }
